@@ -25,6 +25,20 @@ TRUSTED = [
     "outcome), the state backends (replaced by a store: a PASS leaves the set states in the executing worker's own pool; "
     "check consults own/shared pool by scope), lazy expansion of flat leaves and replay of previous jobs (not in this model)",
     "virtual-time event loop of the harness (asyncio.SelectorEventLoop subclass)",
+    "harness/pygen.py + harness/pygen_pxready.py (Python AST -> Lean `do` block, fails closed) regenerate "
+    "I2N/Extracted/GenReady.lean on every run from the source of TestNode.is_setup_ready / is_cleanup_ready (search loop "
+    "behind a `continue` guard), drop_parent / drop_child (ValueError for a non-neighbour, one register call) and "
+    "pick_parent / pick_child (two candidate filters, RuntimeError, three stable sorts, first element, one register "
+    "call); isSetupReady_matches_source, isCleanupReady_matches_source, dropParent_matches_source, "
+    "dropChild_matches_source, drop_raises_for_non_neighbour, pickParent_matches_source, pickChild_matches_source prove "
+    "the model's functions equal to them for every graph, state, node and worker (no hypotheses).  Trusted: the "
+    "translator; the atom table of harness/pygen_pxready.py (a node / worker is its index; self.setup_nodes = the parents "
+    "in dictionary order; node.is_flat(); worker.id in node.params['name']; worker.id in <register>.get_workers(node) = "
+    "membership in regWorkers of the register of the class of self under the class of node; <register>.register = regAdd "
+    "on the named register, for picks the register of the class of the PICKED node; <register>.get_counters() = regTotal, "
+    "read before the only write; the three sort keys pinned verbatim: cmp_to_key(prefix_priority) = the exported rank, "
+    "get_counters, int(not is_flat()); sorted(key=) = the model's stable insertion sort) - the EdgeRegister class itself "
+    "(nested dictionaries keyed by bridged form and worker id) is tied to Reg by the differential runs only",
 ]
 CORPUS = os.path.join(vlib.VERIF, "corpus", PROP)
 
@@ -47,3 +61,16 @@ def search(ctx, reason):
 
 def replay(ctx, payload):
     trav_common.replay_case(ctx, payload, MONITORS)
+
+
+def extract(ctx):
+    """lean/I2N/Extracted/GenReady.lean from the AST of /repo's cartgraph/node.py (second tie, see harness/pygen.py and
+    harness/pygen_pxready.py).  Raises (pygen.Unsupported) when a function left the translated subset or a pinned text
+    changed: run.py records that as a broken proof obligation."""
+    import pygen_pxready
+    if pygen_pxready.extract_ready(ctx):
+        ctx.notes.append("I2N/Extracted/GenReady.lean changed: the source of TestNode.is_setup_ready / is_cleanup_ready / "
+                         "drop_parent / drop_child / pick_parent / pick_child differs from the one the committed file was "
+                         "generated from (the *_matches_source theorems are re-checked)")
+    ctx.extra["regenerated"] = ("lean/I2N/Extracted/GenReady.lean (TestNode.is_setup_ready, is_cleanup_ready, drop_parent, "
+                                "drop_child, pick_parent, pick_child via harness/pygen_pxready.py)")
